@@ -268,3 +268,31 @@ fn k_api_start_sweeping() {
     assert!(cx_phase(ctx(&arena)) == Phase::Sweep, "[phase] start_sweeping ends Sweeping");
     core::mem::forget(arena);
 }
+
+// ------------------------------------------------------------------------------------------- failed constructors (C11, C04)
+static mut FD: [u8; 3] = [0; 3];
+struct DropTok(usize);
+impl Drop for DropTok { fn drop(&mut self) { unsafe { FD[self.0] += 1; } } }
+unsafe impl<'gc> crate::Collect<'gc> for DropTok { const NEEDS_TRACE: bool = false; }
+
+/// A failed Arena::try_new / try_map_root releases everything that was allocated: every value allocated before the failure is destructed
+/// exactly once (and its block released: Kani checks the deallocation), in whichever collector phase the arena was.
+#[kani::proof]
+#[kani::unwind(5)]
+fn k_api_failed_constructors_release_everything() {
+    unsafe { FD = [0; 3]; }
+    let which: bool = kani::any();
+    if which {
+        let r = Arena::<Rootable![Gc<'_, DropTok>]>::try_new::<_, u8>(|mc| { let _a = Gc::new(mc, DropTok(0)); let _b = Gc::new(mc, DropTok(1)); Err(9) });
+        assert!(matches!(r, Err(9)), "[api] the error is handed back");
+        unsafe { assert!(FD[0] == 1 && FD[1] == 1 && FD[2] == 0, "[heap] a failed try_new destructs every value allocated by the callback exactly once"); }
+    } else {
+        let mut arena = Arena::<Rootable![Gc<'_, DropTok>]>::new(|mc| Gc::new(mc, DropTok(0)));
+        let ph = any_phase();
+        cx_set_phase(ctx_mut(&mut arena), ph);
+        if ph == Phase::Sleep { cx_set_root_flag(ctx_mut(&mut arena), true); }
+        let r = arena.try_map_root::<Rootable![Gc<'_, DropTok>], u8>(|mc, _old| { let _b = Gc::new(mc, DropTok(1)); Err(7) });
+        assert!(matches!(r, Err(7)), "[api] the error is handed back");
+        unsafe { assert!(FD[0] == 1 && FD[1] == 1 && FD[2] == 0, "[heap] a failed try_map_root destructs the old root's values and the new allocations exactly once"); }
+    }
+}
